@@ -113,6 +113,13 @@ def c19(tier):
         ents = entry_insts(prog)
         ncall = 0
         crates = {}
+        # std's panic entry (`panic!("literal")`, `debug_assert!(c, "overflow")` in this edition) and what
+        # lies below it: whether such a call can be *reached* is decided by the exploration (panic
+        # clause below, C01), not by the call graph
+        below_panic = set()
+        for pi in prog.insts:
+            if pi["npath"] == "std::rt::begin_panic":
+                below_panic |= {x["id"] for x in cone(prog, pi)}
         for name, inst in ents.items():
             c.oblige(inst is not None, "anchor-missing|%s|%s" % (cfg, name), {"rule": "anchor-missing", "detail": "entry point %s not found in %s" % (name, cfg)})
             if inst is None:
@@ -121,8 +128,8 @@ def c19(tier):
                 crates[i["crate"]] = crates.get(i["crate"], 0) + 1
                 ncall += 1
                 ok = i["crate"] in (prog.f["crate"], "core") or any(i["npath"].startswith(a) for a in ALLOWED_NONCORE)
-                if not ok and prof == "debug" and i["npath"] == "std::rt::begin_panic":
-                    ok = True  # debug_assert!(.., "overflow") message; C01 proves the call unreachable
+                if not ok and i["id"] in below_panic:
+                    ok = True
                 c.oblige(ok, "non-core-callee|%s|%s" % (name, i["npath"]),
                          {"rule": "non-core-callee", "detail": "%s reaches %s (crate %s) in configuration %s-%s" % (name, i["name"], i["crate"], cfg, prof), "where": M.span_str(i.get("span"))})
                 b = i["body"]
